@@ -155,19 +155,35 @@ func mix(h uint64, s string) uint64 {
 	return h
 }
 
+// lock / unlock guard the scheduler's own state. The race detector must never see them:
+// a visible mutex shared by every task would order all their memory accesses and hide
+// the library's races (an early version took it visibly in self() and Perm(), which masked
+// every pair of accesses separated by a scheduling point).
+//
+//go:norace
+func (s *Sched) lock() { raceDisable(); s.mu.Lock() }
+
+//go:norace
+func (s *Sched) unlock() { s.mu.Unlock(); raceEnable() }
+
 // NextSeq returns the next global event sequence number.
 //
 //go:norace
-func (s *Sched) NextSeq() uint64 { return s.seq.Add(1) }
+func (s *Sched) NextSeq() uint64 {
+	raceDisable() // an atomic shared by every task is synchronisation too: keep it invisible
+	v := s.seq.Add(1)
+	raceEnable()
+	return v
+}
 
 // Log folds a harness event into the run hash (and the trace, if enabled).
 //
 //go:norace
 func (s *Sched) Log(kind, detail string) {
-	s.mu.Lock()
+	s.lock()
 	s.hash = mix(mix(s.hash, kind), detail)
 	tr := s.Trace
-	s.mu.Unlock()
+	s.unlock()
 	if tr != nil {
 		tr(kind + " " + detail)
 	}
@@ -176,19 +192,19 @@ func (s *Sched) Log(kind, detail string) {
 // Hash returns the rolling hash over every decision and logged event.
 //
 //go:norace
-func (s *Sched) Hash() uint64 { s.mu.Lock(); defer s.mu.Unlock(); return s.hash }
+func (s *Sched) Hash() uint64 { s.lock(); defer s.unlock(); return s.hash }
 
 // SwitchHash returns the hash of the context-switch sequence.
 //
 //go:norace
-func (s *Sched) SwitchHash() uint64 { s.mu.Lock(); defer s.mu.Unlock(); return s.swHash }
+func (s *Sched) SwitchHash() uint64 { s.lock(); defer s.unlock(); return s.swHash }
 
 // Pairs returns the set of (from-site -> to-site) preemption pairs seen.
 //
 //go:norace
 func (s *Sched) Pairs() map[string]int {
-	s.mu.Lock()
-	defer s.mu.Unlock()
+	s.lock()
+	defer s.unlock()
 	m := make(map[string]int, len(s.pairs))
 	for k, v := range s.pairs {
 		m[k] = v
@@ -199,29 +215,29 @@ func (s *Sched) Pairs() map[string]int {
 // AbortReason is "" for a normal end, else steplimit / simtime / panic / <custom>.
 //
 //go:norace
-func (s *Sched) AbortReason() string { s.mu.Lock(); defer s.mu.Unlock(); return s.abort }
+func (s *Sched) AbortReason() string { s.lock(); defer s.unlock(); return s.abort }
 
 // Abort ends the run at the next scheduling point.
 //
 //go:norace
 func (s *Sched) Abort(reason string) {
-	s.mu.Lock()
+	s.lock()
 	if s.abort == "" {
 		s.abort = reason
 	}
-	s.mu.Unlock()
+	s.unlock()
 }
 
 // Foreign is the number of goroutines that entered the scheduler without a
 // deterministic identity (started by code the instrumenter did not see).
 //
 //go:norace
-func (s *Sched) Foreign() int { s.mu.Lock(); defer s.mu.Unlock(); return s.foreign }
+func (s *Sched) Foreign() int { s.lock(); defer s.unlock(); return s.foreign }
 
 //go:norace
 func (s *Sched) self() *Task {
 	g := goid()
-	s.mu.Lock()
+	s.lock()
 	var t *Task
 	for _, x := range s.live {
 		if x.goid == g {
@@ -235,7 +251,7 @@ func (s *Sched) self() *Task {
 		s.live = append(s.live, t)
 		s.all = append(s.all, t)
 	}
-	s.mu.Unlock()
+	s.unlock()
 	return t
 }
 
@@ -256,10 +272,10 @@ func (s *Sched) newTask(parent *Task, name string) *Task {
 	if parent == nil {
 		id = "0"
 	} else {
-		s.mu.Lock()
+		s.lock()
 		parent.nsp++
 		id = parent.ID + "." + strconv.Itoa(parent.nsp)
-		s.mu.Unlock()
+		s.unlock()
 	}
 	t := &Task{ID: id, Name: name, wake: make(chan struct{}), sched: s}
 	if parent != nil {
@@ -274,12 +290,12 @@ func (s *Sched) newTask(parent *Task, name string) *Task {
 func (s *Sched) enter(t *Task) {
 	raceDisable()
 	g := goid()
-	s.mu.Lock()
+	s.lock()
 	t.goid = g
 	t.gone = false
 	s.live = append(s.live, t)
 	s.all = append(s.all, t)
-	s.mu.Unlock()
+	s.unlock()
 	raceEnable()
 	s.park(t, "start:"+t.Name)
 }
@@ -287,7 +303,7 @@ func (s *Sched) enter(t *Task) {
 //go:norace
 func (s *Sched) leave(t *Task) {
 	raceDisable()
-	s.mu.Lock()
+	s.lock()
 	for i, x := range s.live {
 		if x == t {
 			last := len(s.live) - 1
@@ -301,7 +317,7 @@ func (s *Sched) leave(t *Task) {
 	if s.current == t {
 		s.current = nil
 	}
-	s.mu.Unlock()
+	s.unlock()
 	raceEnable()
 }
 
@@ -311,12 +327,12 @@ func (s *Sched) runTask(t *Task, fn func()) {
 	defer func() {
 		if r := recover(); r != nil {
 			st := string(debug.Stack())
-			s.mu.Lock()
+			s.lock()
 			s.Panics = append(s.Panics, PanicInfo{Task: t.ID, Name: t.Name, Value: fmt.Sprint(r), Stack: st})
 			if s.abort == "" {
 				s.abort = "panic"
 			}
-			s.mu.Unlock()
+			s.unlock()
 		}
 		s.leave(t)
 	}()
@@ -399,10 +415,10 @@ func WrapE(site string, fn func() error) func() error {
 //go:norace
 func (s *Sched) park(t *Task, site string) {
 	raceDisable()
-	s.mu.Lock()
+	s.lock()
 	t.site = site
 	s.parked = append(s.parked, t)
-	s.mu.Unlock()
+	s.unlock()
 	select {
 	case s.poke <- struct{}{}:
 	default:
@@ -477,8 +493,8 @@ func Perm(site string, n int) int {
 	if s == nil || n <= 1 {
 		return 0
 	}
-	s.mu.Lock()
-	defer s.mu.Unlock()
+	s.lock()
+	defer s.unlock()
 	v := s.chooser.Choose("select", n)
 	if v < 0 || v >= n {
 		v = 0
@@ -511,8 +527,8 @@ func (s *Sched) runnable(t *Task) bool {
 
 //go:norace
 func (s *Sched) pick() *Task {
-	s.mu.Lock()
-	defer s.mu.Unlock()
+	s.lock()
+	defer s.unlock()
 	var cands, lows []*Task
 	for _, t := range s.parked {
 		if !s.runnable(t) {
@@ -621,9 +637,9 @@ func (s *Sched) Run(name string, driver func()) {
 	// goroutine creation must keep its happens-before edge (package initialisation etc.)
 	go s.runTask(t, func() {
 		defer func() {
-			s.mu.Lock()
+			s.lock()
 			s.driverEnd = true
-			s.mu.Unlock()
+			s.unlock()
 		}()
 		driver()
 	})
@@ -635,22 +651,22 @@ func (s *Sched) Run(name string, driver func()) {
 		default:
 		}
 		s.WaitIdle()
-		s.mu.Lock()
+		s.lock()
 		end := s.driverEnd || s.abort != ""
 		over := s.Steps >= s.MaxSteps
 		if over && s.abort == "" && !end {
 			s.abort = "steplimit"
 			end = true
 		}
-		s.mu.Unlock()
+		s.unlock()
 		if end {
 			return
 		}
 		nt := s.pick()
 		if nt == nil {
-			s.mu.Lock()
+			s.lock()
 			s.IdleJumps++
-			s.mu.Unlock()
+			s.unlock()
 			select {
 			case <-s.poke:
 			case <-horizon.C:
@@ -681,8 +697,8 @@ type TaskState struct {
 //
 //go:norace
 func (s *Sched) Alive() []TaskState {
-	s.mu.Lock()
-	defer s.mu.Unlock()
+	s.lock()
+	defer s.unlock()
 	var out []TaskState
 	parked := map[*Task]bool{}
 	for _, t := range s.parked {
